@@ -283,13 +283,14 @@ def model_requests(cfg, call, reqs, clock_log):
     kind = call['call']
     n = len(reqs)
     for j, rq in enumerate(reqs):
+        m = {}
         if len(clock_log) == n:
-            amz, date = fmt_amz(clock_log[j])
+            t = clock_log[j]
+            m['clock'] = [t.year, t.month, t.day, t.hour, t.minute, t.second]
         else:   # unexpected number of clock reads: take the date from the wire so that the rest can still be compared
             amz = (rq.header('x-amz-date') or [''])[0]
-            date = amz[:8]
-        m = {'op': 'sigv4.sign', 'method': hx(METHOD[kind]), 'host': hx(cfg['host']), 'scheme': hx(cfg['scheme']),
-             'amz_date': hx(amz), 'date': hx(date), 'region': hx(cfg['region']), 'key_id': hx(cfg['key_id']), 'secret': hx(cfg['access_key'])}
+            m['amz_date'], m['date'] = hx(amz), hx(amz[:8])
+        m |= {'op': 'sigv4.sign', 'method': hx(METHOD[kind]), 'host': hx(cfg['host']), 'scheme': hx(cfg['scheme']), 'region': hx(cfg['region']), 'key_id': hx(cfg['key_id']), 'secret': hx(cfg['access_key'])}
         if kind == 'list_files':
             m['path'] = hx('/' + cfg['bucket'])
             m['list'] = True
